@@ -645,6 +645,26 @@ def machine(col, seed, n_examples, steps):
             for op, k2, src in PROBES[probe:] + PROBES[:probe]:
                 self._call(op, k2, eval(src, pool()), src)  # noqa: S307
 
+        @rule(key=st.sampled_from(keys), i=st.integers(0, 5), op=st.sampled_from(["marshal", "unmarshal"]))
+        def same_object_twice(self, key, i, op):
+            """ONE input object handed to the same operation twice: two calls, two results - they must not be one container
+            (the bare-container types hand their *contents* through by contract, not themselves)"""
+            srcs = TYPES[key][1] if op == "marshal" else TYPES[key][1] + TYPES[key][2]
+            src = srcs[i % len(srcs)]
+            x = eval(src, pool())  # noqa: S307
+            col.label("op:same-object-twice")
+            r1 = _run(op, key, x)
+            r2 = _run(op, key, x)
+            col.ev()
+            if r1[0] == "ok" and r2[0] == "ok" and op == "marshal":
+                shared = set(mutable_ids(r1[2])) & set(mutable_ids(r2[2]))
+                own = {id(r1[2])} & {id(r2[2])} if isinstance(r1[2], (list, dict, set)) else set()
+                if own or (shared and not key.endswith("(bare)")):
+                    self.hist.append([op, key, src])
+                    col.violation("no-shared-mutable-state", {"history": [list(h) for h in self.hist], "twice": True},
+                                  f"{op}({key}, x) called twice with ONE input object x = {src}: the two results are (or share) one mutable container",
+                                  bucket=f"{op}|{key}|same-object-twice", size=len(self.hist))
+
         @rule()
         def clear_caches(self):
             tl.clear_all()
